@@ -162,6 +162,36 @@ Definition fiber_sites_match (gen : list (string * string * string)) : bool :=
   list_eqb triple_eqb fiber_sites_ref gen.
 
 (* ------------------------------------------------------------------------------------------------ *)
+(* Round 9: every DEBUG-ONLY construct of yarel/src (translator/translate_c10.py -> YVGen.FiberSites.debug_sites):
+   debug_assert!/debug_assert_eq!/debug_assert_ne! and every mention of debug_assertions / overflow_checks, with
+   file and enclosing function.  Today there is NO debug-only assertion: the only code that depends on the checked
+   configuration are the 12 guards of the five forks (one per fork site of cfg_sites_ref, here with their function).
+   A debug-only assertion is a dev-only way to end a program; a new one (or a new debug-only branch) must be
+   justified against the model - until then it breaks C10_debug_sites_known by name, and the plug-in's search
+   is aimed at the function it sits in. *)
+Definition debug_sites_ref : list (string * string * string) :=
+  [("memory.rs", "allocate_raw", "cfg! debug_assertions");
+   ("stack.rs", "peek", "cfg! debug_assertions");
+   ("stack.rs", "peek_mut", "cfg! debug_assertions");
+   ("stack.rs", "push", "cfg! debug_assertions");
+   ("stack.rs", "pop", "cfg! debug_assertions");
+   ("stack.rs", "truncate", "cfg! debug_assertions");
+   ("vm.rs", "get_class", "cfg! debug_assertions");
+   ("vm.rs", "run", "cfg! debug_assertions");
+   ("vm.rs", "active_fiber", "#[cfg] debug_assertions");
+   ("vm.rs", "active_fiber", "#[cfg] debug_assertions");
+   ("vm.rs", "active_fiber_mut", "#[cfg] debug_assertions");
+   ("vm.rs", "active_fiber_mut", "#[cfg] debug_assertions")].
+
+Definition debug_sites_match (gen : list (string * string * string)) : bool :=
+  list_eqb triple_eqb debug_sites_ref gen.
+
+(* the debug-only sites are exactly the guards of the forks: as many as fork sites in cfg_sites_ref *)
+Definition debug_sites_are_fork_guards : bool :=
+  Nat.eqb (List.length debug_sites_ref)
+          (count_fork F_GC + count_fork F_STACK + count_fork F_FIBER + count_fork F_OPCODES + count_fork F_CLASS).
+
+(* ------------------------------------------------------------------------------------------------ *)
 (* The active fiber.  [fiber] is the Root cell `Vm.fiber`, [unsafe_fiber] the raw pointer `Vm.unsafe_fiber`
    (None = null); fibers are identified by their address (an N).  [callers] is the `caller` field of each
    ObjFiber (association list, newest binding first). *)
